@@ -30,15 +30,19 @@ class Stream:
         return r
 
     # kernel-side encoders -------------------------------------------------------------------------------
-    def lookup(self, tid, path, vnode):
+    def lookup(self, tid, path, vnode, between=None):
         raw = path if isinstance(path, bytes) else path.encode()
         chunks = [vnode.to_bytes(8, 'little') + raw[:24].ljust(24, b'\0')]
         raw = raw[24:]
         while raw:
             chunks.append(raw[:32].ljust(32, b'\0'))
             raw = raw[32:]
-        return [self.ev('VFS_LOOKUP', (START if i == 0 else 0) | (END if i == len(chunks) - 1 else 0), tid, data=c)
-                for i, c in enumerate(chunks)]
+        out = []
+        for i, c in enumerate(chunks):
+            if i and between:                       # an unrelated record of the same thread falls between two chunks
+                between()
+            out.append(self.ev('VFS_LOOKUP', (START if i == 0 else 0) | (END if i == len(chunks) - 1 else 0), tid, data=c))
+        return out
 
     def chunks_string(self, name, tid, first_prefix, text, between=None):
         raw = text if isinstance(text, bytes) else text.encode()
@@ -83,10 +87,10 @@ class Stream:
             out.append(self.ev('TRACE_STRING_EXEC', NONE, tid, data=self.name32(name)))
         return out
 
-    def syscall(self, name, tid, start, end, lookups=(), inner=()):
+    def syscall(self, name, tid, start, end, lookups=(), inner=(), lookup_between=None):
         out = [self.ev(name, START, tid, start)]
         for path, vn in lookups:
-            out += self.lookup(tid, path, vn)
+            out += self.lookup(tid, path, vn, between=lookup_between)
         for f in inner:
             out += f()
         out.append(self.ev(name, END, tid, end))
